@@ -620,7 +620,12 @@ func (h *harness) settle() {
 	}
 	before, _ := os.ReadFile(h.archivePath())
 	h.mu.Lock()
-	h.quiet = true
+	// The fixpoint claim is conditional: "if every change planned by a cycle
+	// is applied exactly". A last cycle that still met problems (content the
+	// endpoint refuses for good, e.g. a link it considers invalid) is retried
+	// forever, legitimately.
+	applied := h.cycleClean
+	h.quiet = applied
 	h.mu.Unlock()
 	err = flush()
 	h.mu.Lock()
@@ -628,7 +633,10 @@ func (h *harness) settle() {
 	h.atRest = err == nil
 	h.mu.Unlock()
 	after, _ := os.ReadFile(h.archivePath())
-	if err == nil && string(before) != string(after) {
+	if !applied {
+		s.Count("probe.settled_with_standing_problems", 1)
+	}
+	if applied && err == nil && string(before) != string(after) {
 		s.Violate("C04", "not-a-fixpoint", "archive", "the quiet cycle rewrote the archive although nothing changed")
 	}
 	s.Logf("settle", "quiet flush -> %v", err)
